@@ -159,9 +159,17 @@ def _dishonest_uploader(res: dict, params: dict, rng: random.Random):
         if requeue_failed and state_name(t) == 'FAILED':
             n_before = state['attempt']
             trace.append((round(w.now, 3), 'user-requeue'))
+            lp_before = t.local_path
+            size_before = os.path.getsize(lp_before) if lp_before and os.path.exists(lp_before) else None
             try:
                 await dn.call(dn.client.transfers.queue(t))
                 obs['requeued_after_failed'] = obs.get('requeued_after_failed', 0) + 1
+                # the received prefix is kept: a later attempt resumes the same local file
+                if size_before and (t.local_path != lp_before or not os.path.exists(lp_before)
+                                    or os.path.getsize(lp_before) != size_before):
+                    viol.append(('received-prefix-abandoned-on-requeue', {
+                        'variant': variant, 'local_path_before': os.path.basename(lp_before), 'bytes_on_disk': size_before,
+                        'local_path_after': None if t.local_path is None else os.path.basename(t.local_path)}))
             except Exception as exc:  # noqa  (a refusal is fine)
                 trace.append((round(w.now, 3), 'requeue-refused', repr(exc)))
             await wait_until(lambda: state_name(t) in ('COMPLETE', 'FAILED') and state['attempt'] > n_before, 600.0, step=1.0)
